@@ -130,3 +130,15 @@ func EncryptAnswerPad(data, key, iv, pad []byte) []byte {
 	ige.EncryptBlocks(c, iv, out, plain)
 	return out
 }
+
+// LastN returns the last read of exactly n bytes (nil if none).
+func (r *RecReader) LastN(n int) []byte {
+	r.mu.Lock()
+	defer r.mu.Unlock()
+	for i := len(r.Reads) - 1; i >= 0; i-- {
+		if len(r.Reads[i]) == n {
+			return r.Reads[i]
+		}
+	}
+	return nil
+}
